@@ -82,11 +82,17 @@ func (x *Exec) applyCall(st *State, site ssa.Instruction, c *ssa.CallCommon, fnv
 				if rv.Tup != nil {
 					for i, e := range rv.Tup {
 						if e.T != nil {
-							st.ghost[fmt.Sprintf("#ret$%s$%d", name, i)] = e.T
+							k := fmt.Sprintf("#ret$%s$%d", name, i)
+							st.ghost[k] = e.T
+							if tt, ok := res.Type().(*types.Tuple); ok && i < tt.Len() {
+								x.argTypes[k] = tt.At(i).Type()
+							}
 						}
 					}
 				} else if rv.T != nil {
-					st.ghost[fmt.Sprintf("#ret$%s$0", name)] = rv.T
+					k := fmt.Sprintf("#ret$%s$0", name)
+					st.ghost[k] = rv.T
+					x.argTypes[k] = res.Type()
 				}
 			}
 		}
